@@ -218,6 +218,17 @@ func genC12(e *emitter, tier string) {
 				typedField(t3, code, append(append([]uint64{}, vals...), 5))
 				e.emit(decodeCase("typed-long", t3))
 			}
+			// BOTH encodings populated: consistent; the raw bytes fit the dims and the typed field does not; the
+			// reverse; both fit but hold different values
+			if n > 0 {
+				other := patterns(w, n, k+77)
+				for bi, pr := range [][2][]uint64{{vals, vals}, {vals, append(append([]uint64{}, vals...), 5)}, {vals[:n-1], vals}, {vals, other}, {append(append([]uint64{}, vals...), 5), vals[:n-1]}} {
+					tb := &TPJ{DataType: code, Dims: dims, Raw: leBytes(pr[0], w), HasRaw: true}
+					if typedField(tb, code, pr[1]) {
+						e.emit(decodeCase([]string{"both-consistent", "both-typed-long", "both-raw-short", "both-differ", "both-wrong"}[bi], tb))
+					}
+				}
+			}
 			// every typed field populated under every code (incl. codes the library cannot represent)
 			for f := 0; f < 5; f++ {
 				t := &TPJ{DataType: code, Dims: dims}
